@@ -14,6 +14,7 @@ C07 — resolvers only receive arguments that conform to the declared input type
 import ast
 import json
 import sys
+import time
 
 from common import REPO
 from corr import C07_universe as U
@@ -2148,20 +2149,29 @@ def names_of(reg):
     return [t["name"] for t in reg["types"]]
 
 
+def _timed(ctx, name, fn, *a, **kw):
+    """run one stream and record its wall time (evidence: where the budget of a tier goes)"""
+    t0 = time.time()
+    try:
+        return fn(*a, **kw)
+    finally:
+        ctx.extra["seconds:" + name] = round(ctx.extra.get("seconds:" + name, 0) + time.time() - t0, 1)
+
+
 def run(ctx):
     quick = ctx.tier == "quick"
     rng = ctx.rng
     # corpus first
-    run_corpus(ctx)
-    run_extremes(ctx)
-    run_cross_kind(ctx)
-    run_stand_in_scalar(ctx)
-    run_stand_in_variables(ctx)
-    run_code_defaults(ctx)
-    run_enum_identity(ctx)
-    run_nested_vars(ctx)
-    run_collisions(ctx)
-    run_pynum(ctx, ctx.n(2000, 15000))
+    _timed(ctx, "corpus", run_corpus, ctx)
+    _timed(ctx, "extremes", run_extremes, ctx)
+    _timed(ctx, "cross-kind", run_cross_kind, ctx)
+    _timed(ctx, "stand-in", run_stand_in_scalar, ctx)
+    _timed(ctx, "stand-in", run_stand_in_variables, ctx)
+    _timed(ctx, "code-defaults", run_code_defaults, ctx)
+    _timed(ctx, "enum-identity", run_enum_identity, ctx)
+    _timed(ctx, "nested-vars", run_nested_vars, ctx)
+    _timed(ctx, "collisions", run_collisions, ctx)
+    _timed(ctx, "pynum", run_pynum, ctx, ctx.n(2000, 15000))
     # the hand-written registry: all type expressions up to 3 wrappers (quick: all <=2, a sample of depth 3)
     reg = U.fixed_registry()
     allt = U.all_types(names_of(reg), 3)
@@ -2172,10 +2182,10 @@ def run(ctx):
     else:
         types = allt
     ctx.extra["type_expressions_fixed_registry"] = len(types)
-    run_registry(ctx, reg, "fixed", types, per_type=8 if quick else 14, depth=2 if quick else 3,
-                 max_cases=1400 if quick else 16000, n_abstract=4 if quick else 16, n_trace=100 if quick else 1500)
+    _timed(ctx, "fixed-registry", run_registry, ctx, reg, "fixed", types, per_type=8 if quick else 14, depth=2 if quick else 3,
+           max_cases=1400 if quick else 13000, n_abstract=4 if quick else 16, n_trace=100 if quick else 1200)
     # seeded random registries
-    n = ctx.n(2, 10)
+    n = ctx.n(2, 8)       # thorough: 8 registries x 1500 cases (was 10; the tier ran 7 min, see seconds:* in the evidence)
     for i in range(n):
         if ctx.time_left() < (15 if quick else 60):
             ctx.notes.append("stopped before random registry %d (time)" % i)
@@ -2183,12 +2193,12 @@ def run(ctx):
         r = U.gen_registry(rng)
         at = U.all_types(names_of(r), 3)
         types = rng.sample(at, min(len(at), 30 if quick else 80))
-        run_registry(ctx, r, "rnd%d" % i, types, per_type=6 if quick else 10, depth=2,
-                     max_cases=250 if quick else 1500, n_abstract=2 if quick else 6, n_trace=30 if quick else 200)
+        _timed(ctx, "random-registries", run_registry, ctx, r, "rnd%d" % i, types, per_type=6 if quick else 10, depth=2,
+               max_cases=250 if quick else 1500, n_abstract=2 if quick else 6, n_trace=30 if quick else 200)
     # schemas with a past: used, then derived (visibility / camel-case transforms, `fields` setter, clone), then checked
     from corr import C07_history, C07_tree
-    C07_tree.run(ctx, sys.modules[__name__])
-    C07_history.run(ctx, sys.modules[__name__])
+    _timed(ctx, "tree", C07_tree.run, ctx, sys.modules[__name__])
+    _timed(ctx, "history", C07_history.run, ctx, sys.modules[__name__])
     ctx.extra["int_range_test_source"] = int_range_test()[2]
     ctx.extra["float_finiteness_guard_source"] = float_guard()[1] or ["<none>"]
 
@@ -2230,6 +2240,9 @@ def replay(ctx, data, record=False):
         run_nested_vars(c2)
         sig = data.get("signature")
         return not any(f["signature"] == sig for f in c2.found)
+    if inp.get("check") == "derivation-refused":
+        from corr import C07_history
+        return C07_history.replay_det_refused(sys.modules[__name__], inp)
     if inp.get("check") == "declaration":
         from corr import C07_history
         h = inp["history"]
